@@ -128,7 +128,7 @@ def c07DemoActs : List Act :=
    .advance 1000, .fire 0 0, .selCtx 0, .hook2 0, .decide 0, .writeDE 0, .cancel 0, .errTest 0,
    .wEnd 0 0 0 (.h 999), .wCheck 0 0, .wClose 0 0,
    .loopTest 0, .sendCl 0, .wTake 0 1 0, .wStart 0 1 true, .hook3 0, .advance 1500, .wEnd 0 1 8 .nil, .wCheck 0 1,
-   .hook1 0 1, .wCas 0 1, .wWrite 0 1, .wClose 0 1, .selDone 0, .decide 0, .waitDone 0, .cancel 0, .errTest 0, .wgDone 0]
+   .hook1 0 1, .wCas 0 1, .hook4 0 1, .wWrite 0 1, .wClose 0 1, .selDone 0, .decide 0, .waitDone 0, .cancel 0, .errTest 0, .wgDone 0]
 
 example : ∃ s, Reachable { N := 1 } s ∧ (s.task 0).pc = .done ∧ (s.task 0).att = 2 ∧
     get2 (s.task 0) = some (8, .nil) ∧ (s.task 2).pc = .discarded ∧ (s.task 2).onErr = [(.discard, 0)] := by
